@@ -37,7 +37,11 @@ pub fn run(property: &str, tier: &str) -> i32 {
             }
             let (sessions, cmds) = crate::e4_session::c04_sessions(&rep, &commands);
             rep.add("position_commands_checked_in_session_context", sessions);
-            let rule = format!("{}; plus {} position commands (castling both wings, en passant, promotions with capture on a corner, repetitions) each inside 6 session contexts of the real binary (alone, after go, repeated, after ucinewgame, after other games): loop state compared with the rules", e1_rule, commands.len());
+            let sizes: &[usize] = if rep.quick() { &[8300, 16500, 66000] } else { &[4200, 8300, 16500, 33000, 66000, 132000, 270000] };
+            let (long_sessions, long_cmds) = crate::e4_session::c04_long_lines(&rep, sizes);
+            rep.add("position_commands_longer_than_io_buffers_sessions", long_sessions);
+            let (sessions, cmds) = (sessions + long_sessions, cmds + long_cmds);
+            let rule = format!("{}; plus {} position commands (castling both wings, en passant, promotions with capture on a corner, repetitions) each inside 6 session contexts of the real binary (alone, after go, repeated, after ucinewgame, after other games): loop state compared with the rules; legal games whose position command is 8 KiB to 64 KiB (256 KiB thorough) long, alone and after other commands", e1_rule, commands.len());
             rep.finish(r.states + sessions, r.transitions + cmds, r.validated + sessions, r.exhaustive, &rule)
         }
         "C03" => {
@@ -82,7 +86,7 @@ pub fn run(property: &str, tier: &str) -> i32 {
         "C08" => {
             let r3 = crate::e3_driver::run(&rep, false);
             let (sessions, cmds) = crate::e4_session::c03_sessions(&rep, "C03");
-            let smoke = crate::e4_session::wallclock_smoke(&rep);
+            let smoke = crate::e4_session::wallclock_smoke(&rep) + crate::e4_session::realclock_sessions(&rep);
             rep.assume("wall-clock magnitudes are a smoke measurement with a 3 s margin; the exhaustive verdict is the virtual-time one (every schedule terminates with an answer, the search thread unwinds within a bounded number of consultations after expiry)");
             let rule = "all interleavings (loom, preemption bound 2/3, unbounded for small expiry indices) x every expiry index on non-terminal, checkmated and stalemated roots, one and two go commands: exactly one bestmove per go, null move on a finished game, no livelock; sessions of the real binary continuing after go (isready, new position, go); wall-clock smoke run on the unhooked binary";
             rep.finish(r3.models + sessions, r3.executions + cmds, smoke, true, rule)
@@ -90,7 +94,7 @@ pub fn run(property: &str, tier: &str) -> i32 {
         "C09" => {
             // pure part first (writes nothing yet), then the ordering facts in virtual time, then the smoke run
             let r3 = crate::e3_driver::run(&rep, true);
-            let smoke = crate::e4_session::wallclock_smoke(&rep);
+            let smoke = crate::e4_session::wallclock_smoke(&rep) + crate::e4_session::realclock_sessions(&rep);
             rep.add("loom_part_models", r3.models);
             let _ = smoke;
             crate::e5_pure::run_c09(&rep)
